@@ -131,7 +131,14 @@ def coreFn (fn : String) (args : List String) : Option String :=
     pure (line3 s s "-")
   | "mode", [k, c, o, sy] => do
     let ek ← ekindOf k; let cur ← octOfArg c; let oct ← octOfArg o; let sym ← strOfArg sy
-    pure (line3 (showOutcome showNat (Chmod.mode ek cur oct sym)) "-" "-")
+    -- spec: octal wins; nothing requested = 0; else the grammar (error when malformed)
+    let sp : String := if oct ≠ 0 then "ok " ++ showNat oct else if sym = [] then "ok " ++ showNat 0
+      else match Spec.symSpec ek cur sym with | some m => "ok " ++ showNat m | none => "err *"
+    let cls : String := if oct ≠ 0 ∨ sym = [] then "-"
+      else match Spec.parseExpr sym with
+        | none => "sym_malformed"
+        | some cs => if cs.all (fun c => c.appliesTo ek) then "-" else "sym_kind_specific_clauses"
+    pure (line3 (showOutcome showNat (Chmod.mode ek cur oct sym)) sp cls)
   | "revoking", [a, b] => do
     let x ← octOfArg a; let y ← octOfArg b
     pure (line3 (okBool (Chmod.revokingMode x y)) "-" "-")
